@@ -1,11 +1,224 @@
 package p20
 
-import "verifharness/core"
+import (
+	"bytes"
+	"encoding/binary"
+	"encoding/hex"
+	"fmt"
+	"strconv"
+	"strings"
+
+	"github.com/btcsuite/btcd/blockchain"
+	"github.com/btcsuite/btcd/btcutil/v2"
+	"github.com/btcsuite/btcd/btcutil/v2/bloom"
+	"github.com/btcsuite/btcd/chainhash/v2"
+	"github.com/btcsuite/btcd/wire/v2"
+	"verifharness/core"
+)
 
 // partial-merkle-tree part of C20 (ops "pmt…"): f[0] is the op.
+//
+//	C20 pmt <seed> <matchedbits>
+//
+// builds a block of len(matchedbits) synthetic transactions (layout mirrored by
+// lean/BV/C20/DriverPmt.lean), loads a bloom filter that contains one marker push, and lets the REAL
+// bloom.NewMerkleBlock (MatchTxAndUpdate per transaction, traverseAndBuild) produce the merkle block.
+// A transaction is matched iff its output script pushes the marker (the filter is 36000 zero bytes with
+// 10 hash functions and one inserted element, so an accidental match of the other push or of a txid has
+// probability (10/288000)^10).
 
 func factsPmt() []core.Fact { return nil }
 
-func execPmt(f []string) string { return "unimplemented" }
+var pmtMarkMatch = []byte("C20-match-mark")
+var pmtMarkNo = []byte("C20-nomatch-mk")
 
-func genPmt(g *core.Gen) {}
+func pmtTx(seed uint32, i int, m bool) *wire.MsgTx {
+	tx := wire.NewMsgTx(2)
+	var prev chainhash.Hash
+	for k := 0; k < 8; k++ {
+		binary.LittleEndian.PutUint32(prev[4*k:], seed)
+	}
+	tx.AddTxIn(&wire.TxIn{PreviousOutPoint: wire.OutPoint{Hash: prev, Index: uint32(i)}, Sequence: 0xffffffff})
+	mark := pmtMarkNo
+	if m {
+		mark = pmtMarkMatch
+	}
+	tx.AddTxOut(wire.NewTxOut(int64(i), append([]byte{14}, mark...)))
+	return tx
+}
+
+// pmtExtract is a plain port of BIP37 / Bitcoin Core's CPartialMerkleTree::ExtractMatches (without the
+// CVE-2012-2459 equal-children rejection). It is harness code used only to cross-check the produced
+// (flags, hashes) on the Go side; the Lean side answers the same field from its Spec.
+type pmtEx struct {
+	n      uint32
+	bits   []bool
+	hashes []*chainhash.Hash
+	bi, hi int
+	bad    bool
+	idx    []uint32
+	ids    []chainhash.Hash
+}
+
+func (e *pmtEx) width(h uint32) uint32 { return (e.n + (1 << h) - 1) >> h }
+
+func (e *pmtEx) walk(h, pos uint32) chainhash.Hash {
+	if e.bi >= len(e.bits) {
+		e.bad = true
+		return chainhash.Hash{}
+	}
+	parent := e.bits[e.bi]
+	e.bi++
+	if h == 0 || !parent {
+		if e.hi >= len(e.hashes) {
+			e.bad = true
+			return chainhash.Hash{}
+		}
+		x := *e.hashes[e.hi]
+		e.hi++
+		if h == 0 && parent {
+			e.idx = append(e.idx, pos)
+			e.ids = append(e.ids, x)
+		}
+		return x
+	}
+	l := e.walk(h-1, pos*2)
+	r := l
+	if pos*2+1 < e.width(h-1) {
+		r = e.walk(h-1, pos*2+1)
+	}
+	return bloom.HashMerkleBranches(&l, &r)
+}
+
+func pmtExtract(mb *wire.MsgMerkleBlock) (root chainhash.Hash, idx []uint32, ids []chainhash.Hash, ok bool) {
+	e := &pmtEx{n: mb.Transactions, hashes: mb.Hashes}
+	if e.n == 0 || uint32(len(mb.Hashes)) > e.n || len(mb.Flags)*8 < len(mb.Hashes) {
+		return root, nil, nil, false
+	}
+	for i := 0; i < len(mb.Flags)*8; i++ {
+		e.bits = append(e.bits, mb.Flags[i/8]>>(uint(i)%8)&1 == 1)
+	}
+	h := uint32(0)
+	for e.width(h) > 1 {
+		h++
+	}
+	root = e.walk(h, 0)
+	if e.bad || (e.bi+7)/8 != len(mb.Flags) || e.hi != len(mb.Hashes) {
+		return root, nil, nil, false
+	}
+	return root, e.idx, e.ids, true
+}
+
+func execPmt(f []string) string {
+	if f[0] != "pmt" || len(f) != 3 {
+		return "bad-op"
+	}
+	seed64, err := strconv.ParseUint(f[1], 10, 32)
+	if err != nil {
+		return "bad-op"
+	}
+	bitsS := f[2]
+	if bitsS == "-" {
+		bitsS = ""
+	}
+	var blk wire.MsgBlock
+	for i, c := range bitsS {
+		blk.AddTransaction(pmtTx(uint32(seed64), i, c == '1'))
+	}
+	filter := bloom.LoadFilter(&wire.MsgFilterLoad{Filter: make([]byte, 36000), HashFuncs: 10, Tweak: uint32(seed64), Flags: wire.BloomUpdateNone})
+	filter.Add(pmtMarkMatch)
+	block := btcutil.NewBlock(&blk)
+	mb, idx := bloom.NewMerkleBlock(block, filter) // panics for a block without transactions
+	root := blockchain.CalcMerkleRoot(block.Transactions(), false)
+
+	// wire round trip of the message
+	var buf bytes.Buffer
+	wireOK := false
+	if err := mb.BtcEncode(&buf, wire.ProtocolVersion, wire.BaseEncoding); err == nil {
+		var back wire.MsgMerkleBlock
+		if err := back.BtcDecode(&buf, wire.ProtocolVersion, wire.BaseEncoding); err == nil {
+			wireOK = back.Transactions == mb.Transactions && bytes.Equal(back.Flags, mb.Flags) && len(back.Hashes) == len(mb.Hashes)
+			for i := range back.Hashes {
+				wireOK = wireOK && *back.Hashes[i] == *mb.Hashes[i]
+			}
+		}
+	}
+	if !wireOK {
+		return "err:wire"
+	}
+
+	xroot, xidx, xids, ok := pmtExtract(mb)
+	x := ok && xroot == root && len(xidx) == len(idx)
+	for i := 0; x && i < len(idx); i++ {
+		x = xidx[i] == idx[i] && xids[i] == *block.Transactions()[idx[i]].Hash()
+	}
+	is := make([]string, len(idx))
+	for i, v := range idx {
+		is[i] = strconv.Itoa(int(v))
+	}
+	idxS := strings.Join(is, ",")
+	if idxS == "" {
+		idxS = "-"
+	}
+	hs := make([]string, len(mb.Hashes))
+	for i, h := range mb.Hashes {
+		hs[i] = hex.EncodeToString(h[:])
+	}
+	return fmt.Sprintf("idx=%s tx=%d flags=%s hashes=%s root=%s x=%s", idxS, mb.Transactions,
+		hex.EncodeToString(mb.Flags), strings.Join(hs, ","), hex.EncodeToString(root[:]), bit(x))
+}
+
+func genPmt(g *core.Gen) {
+	r := g.R
+	emit := func(class string, bits []byte) {
+		any := bytes.IndexByte(bits, '1') >= 0
+		g.Case(class, any && len(bits) > 1, fmt.Sprintf("C20 pmt %d %s", r.U32(), string(bits)))
+	}
+	// every subset for n <= 5 (quick) / 8 (thorough)
+	maxAll := g.N(5, 8)
+	for n := 1; n <= maxAll; n++ {
+		for s := 0; s < 1<<uint(n); s++ {
+			b := make([]byte, n)
+			for i := range b {
+				b[i] = '0' + byte(s>>uint(i)&1)
+			}
+			emit("pmt-all-subsets", b)
+		}
+	}
+	g.Case("pmt-empty-block", false, "C20 pmt 1 -")
+	shapes := func(n int) [][]byte {
+		mk := func(f func(i int) bool) []byte {
+			b := make([]byte, n)
+			for i := range b {
+				b[i] = '0'
+				if f(i) {
+					b[i] = '1'
+				}
+			}
+			return b
+		}
+		one := r.Intn(n)
+		den := 2 + r.Intn(8)
+		return [][]byte{
+			mk(func(int) bool { return false }), mk(func(int) bool { return true }),
+			mk(func(i int) bool { return i == 0 }), mk(func(i int) bool { return i == n-1 }),
+			mk(func(i int) bool { return i%2 == 0 }), mk(func(i int) bool { return i == one }),
+			mk(func(i int) bool { return r.Chance(1, den) }), mk(func(i int) bool { return r.Bool() }),
+		}
+	}
+	for n := 6; n <= g.N(40, 130); n++ {
+		for _, b := range shapes(n) {
+			emit("pmt-shapes", b)
+		}
+	}
+	big := []int{63, 64, 65, 127, 128, 129, 255, 256, 257, 511, 513, 1000}
+	if g.Thorough() {
+		big = append(big, 1023, 1024, 1025, 2047, 2049, 5000)
+	}
+	for _, n := range big {
+		sh := shapes(n)
+		for k := 0; k < g.N(3, 8); k++ {
+			emit("pmt-big", sh[r.Intn(len(sh))])
+		}
+	}
+}
